@@ -166,7 +166,7 @@ impl Property for C11 {
     fn cases(&self, tier: Tier) -> usize {
         match tier {
             Tier::Quick => 30_000,
-            Tier::Thorough => 200_000,
+            Tier::Thorough => 1_200_000,
         }
     }
     fn strategy(&self, _tier: Tier) -> BoxedStrategy<C11Case> {
